@@ -100,6 +100,9 @@ pub struct Scenario {
     /// Which `via` values are in the alphabet for create/destroy.
     #[serde(default = "both_vias")]
     pub vias: Vec<Via>,
+    /// "Drop the world as it is" (non-empty, mid-history) is a transition of every state (C04, C13).
+    #[serde(default)]
+    pub drop_world: bool,
 }
 
 fn all_kinds() -> Vec<u8> {
@@ -510,6 +513,9 @@ impl Sys {
                     out.push(Op::ClearEvents { w: wu, scope: a });
                 }
             }
+            if sc.drop_world && sc.max_faults == 0 {
+                out.push(Op::DropWorld { w: wu, k: 0 });
+            }
             if self.faults_used < sc.max_faults {
                 for &a in &sc.archs {
                     let n = m.order[a as usize].len();
@@ -759,6 +765,7 @@ impl Sys {
                 self.op_clear_events(w, scope)?;
                 Ok(Some(w))
             }
+            Op::DropWorld { k: 0, .. } if self.sc.max_faults == 0 => crate::fault::apply_fault(self, op),
             Op::FaultQuery { .. } | Op::FaultClone { .. } | Op::FaultDestroyDrop { .. } | Op::FaultIterDestroyDrop { .. } | Op::DropWorld { .. } => {
                 self.faults_used += 1;
                 crate::fault::apply_fault(self, op)
